@@ -1,0 +1,18 @@
+//go:build verif
+
+package extendeddaemonsetreplicaset
+
+import (
+	"k8s.io/client-go/util/flowcontrol"
+	generator "k8s.io/kube-state-metrics/v2/pkg/metric_generator"
+)
+
+// VerifMetricFamilies exposes the metric family generators of the replica-set controller.
+func VerifMetricFamilies() []generator.FamilyGenerator {
+	return generateMetricFamilies()
+}
+
+// VerifBackoff exposes the failed-pod back-off, the only in-memory state of the reconciler.
+func (r *Reconciler) VerifBackoff() *flowcontrol.Backoff {
+	return r.failedPodsBackOff
+}
